@@ -555,6 +555,10 @@ func (e *Engine) computeModsets() {
 						}
 						add(callee)
 						callees[f] = append(callees[f], callee)
+						// a counted callee bumps its ghost call counter
+						if ct := e.contractFor(callee); ct != nil && ct.Counted {
+							ms.ghosts["calls:"+ct.Key] = true
+						}
 						if ct := e.contractFor(callee); ct != nil && ct.HasAssigns && len(ct.Assigns) == 0 {
 							if cleanCallee[f] == nil {
 								cleanCallee[f] = map[*ssa.Function]bool{}
@@ -810,6 +814,13 @@ func (e *Engine) newUnit(fn *ssa.Function) *Unit {
 	u.ghostSort["closed"] = "(Array Ref Bool)"
 	u.ghostSort["sends"] = "(Array Ref Int)"
 	u.ghostSort["out"] = "(Array Ref Str)"
+	if e.contracts != nil {
+		for _, ct := range e.contracts.funcs {
+			if ct.Counted {
+				u.ghostSort["calls:"+ct.Key] = "Int"
+			}
+		}
+	}
 	if e.msUnit != nil && e.msUnit != u {
 		for name, t := range e.knownGhostTypes {
 			u.ghostSort[name] = fmt.Sprintf("(Array Ref %s)", u.w.sortOf(t))
@@ -992,7 +1003,16 @@ func (e *Engine) verify(fn *ssa.Function, opts VerifyOpts) (u *Unit) {
 		}()
 	}
 	exit, results := fr.runTop(st)
+	u.exitPc = exit.pc
+	for i, r := range fr.rets {
+		pos := ""
+		if i < len(fr.retPos) {
+			pos = fr.retPos[i]
+		}
+		u.retPcs = append(u.retPcs, [2]string{r.st.pc, pos})
+	}
 	if exit.dead {
+		u.exitPc = "false"
 		return u
 	}
 	if u.frameMode {
@@ -1015,13 +1035,26 @@ func (e *Engine) verify(fn *ssa.Function, opts VerifyOpts) (u *Unit) {
 				penv.vars[ct.Results[i]] = r
 			}
 		}
+		// a clause that cannot be evaluated against this code is a failed obligation, not a skipped one
+		evalClause := func(en *Expr, env *Env) (g string, why string) {
+			defer func() {
+				if r := recover(); r != nil {
+					if ee, ok := r.(evalError); ok {
+						g, why = "false", " [clause cannot be evaluated against this code: "+ee.msg+"]"
+						return
+					}
+					panic(r)
+				}
+			}()
+			return fr.evalBool(en, env, exit, fr.entry), ""
+		}
 		for i, en := range ct.Ensures {
-			g := fr.evalBool(en, penv, exit, fr.entry)
-			u.oblige(nil, exit.clone(), "post", fmt.Sprintf("%d", i+1), g, token.NoPos, "ensures "+en.src)
+			g, why := evalClause(en, penv)
+			u.oblige(nil, exit.clone(), "post", fmt.Sprintf("%d", i+1), g, token.NoPos, "ensures "+en.src+why)
 		}
 		for i, en := range ct.Checks {
-			g := fr.evalBool(en, penv, exit, fr.entry)
-			u.oblige(nil, exit.clone(), "post", fmt.Sprintf("c%d", i+1), g, token.NoPos, "checks "+en.src)
+			g, why := evalClause(en, penv)
+			u.oblige(nil, exit.clone(), "post", fmt.Sprintf("c%d", i+1), g, token.NoPos, "checks "+en.src+why)
 		}
 	}
 	for _, ic := range ifcts {
